@@ -496,7 +496,7 @@ func ValidateModelParallel(progs []*Program, traces []TraceItem, cfg string, wor
 	if len(traces) == 0 {
 		return ModelVerdict{}
 	}
-	chunks := workers / 2
+	chunks := workers / 4 // every process may grow to several GB: four at a time
 	if chunks < 1 {
 		chunks = 1
 	}
